@@ -19,8 +19,8 @@ import (
 func init() {
 	register(Property{ID: "C10", Level: "other", Run: runC10,
 		Technique: "static analysis: crash-site enumeration (explicit panics, Must* calls, unchecked type assertions, constant-bound indexing/slicing without a length guard, non-constant integer divisors) over every function of the configuration-loading packages (go/ssa, dominator guards, one-level callee summaries, constant evaluation of literals), and must-pass-through rules for the documented constraints in Conf.Validate / Path.validate",
-		Text: "Enumerates every potential crash site of the closed classes P1 (panic), P2 (Must* with a non-constant argument), P3 (x.(T) without ok), P4c (index/slice with a constant bound on a slice or string), P5 (integer / or % by a non-constant), P6r (reflect Elem() of an existing map element used as a destination without a nil test), P8 (in env.loadEnvInternal every write through prv.Elem() and every UnmarshalEnv call is reached only after the destination pointer - nil for every unset per-path setting - was tested non-nil or initialised; the map/struct branches are discharged by a type rule: conf.Path has no map- or struct-typed field) in all functions of internal/conf, conf/env, conf/decrypt, conf/jsonwrapper, conf/yamlwrapper, and requires each to be discharged by a checked structural argument (dominating length/emptiness/prefix guard, fixed length by construction, constant arguments evaluated by the checker, type fixed by the static configuration type graph, tabled third-party node contracts); plus: each documented constraint (positive timeouts, power-of-two queue, %path and full timestamp in recordPath, deleteAfter ≥ segment duration, regexp paths with static sources on demand, unique rpiCamera ids) guards every successful return of Validate/validate. Absence of a report is NOT a proof of crash freedom: reflect API misuse, third-party parsers (goccy/go-yaml, encoding/json, secretbox), nil dereferences and non-constant index arithmetic are outside the rule set.",
-		Note: "trusted: go/ssa, dominator tree; regexp.FindStringSubmatch returns 1+NumSubexp entries; strings.Split/SplitN return at least one element; goccy/go-yaml scalar nodes implement ast.MapKeyNode (tabled)"})
+		Text:      "Enumerates every potential crash site of the closed classes P1 (panic), P2 (Must* with a non-constant argument), P3 (x.(T) without ok), P4c (index/slice with a constant bound on a slice or string), P5 (integer / or % by a non-constant), P6r (reflect Elem() of an existing map element used as a destination without a nil test), P8 (in env.loadEnvInternal every write through prv.Elem() and every UnmarshalEnv call is reached only after the destination pointer - nil for every unset per-path setting - was tested non-nil or initialised; the map/struct branches are discharged by a type rule: conf.Path has no map- or struct-typed field) in all functions of internal/conf, conf/env, conf/decrypt, conf/jsonwrapper, conf/yamlwrapper, and requires each to be discharged by a checked structural argument (dominating length/emptiness/prefix guard, fixed length by construction, constant arguments evaluated by the checker, type fixed by the static configuration type graph, tabled third-party node contracts); plus: each documented constraint (positive timeouts, power-of-two queue, %path and full timestamp in recordPath, deleteAfter ≥ segment duration, regexp paths with static sources on demand, unique rpiCamera ids) guards every successful return of Validate/validate. Absence of a report is NOT a proof of crash freedom: reflect API misuse, third-party parsers (goccy/go-yaml, encoding/json, secretbox), nil dereferences and non-constant index arithmetic are outside the rule set.",
+		Note:      "trusted: go/ssa, dominator tree; regexp.FindStringSubmatch returns 1+NumSubexp entries; strings.Split/SplitN return at least one element; goccy/go-yaml scalar nodes implement ast.MapKeyNode (tabled)"})
 	addMutants(
 		// the first version of the C08 nil-slice repair: the walker meets validated Paths
 		// (Path.Regexp -> regexp.Regexp, unexported slice fields) and panics in Set
